@@ -24,6 +24,7 @@ import (
 	"time"
 
 	"github.com/thushan/olla/internal/adapter/health"
+	"github.com/thushan/olla/internal/adapter/unifier"
 	"github.com/thushan/olla/internal/core/domain"
 	"github.com/thushan/olla/internal/core/ports"
 	"github.com/thushan/olla/verifharness/backend"
@@ -33,8 +34,14 @@ import (
 )
 
 type UserCase struct {
-	Kind string `json:"kind"` // health | engine
+	Kind string `json:"kind"` // health | engine | unifier
 	Ops  string `json:"ops"`  // f s t T w ; R = failing check with a retryable error (health)
+	// Slash: the health-check URL ends in "/" (health)
+	Slash bool `json:"slash,omitempty"`
+	// unifier: breaker configuration of the lifecycle unifier
+	Th   int `json:"th,omitempty"`
+	Half int `json:"half,omitempty"`
+	Succ int `json:"succ,omitempty"`
 }
 
 // fused is a breaker behind its user: Check reports whether the protected endpoint was contacted.
@@ -85,12 +92,15 @@ type healthUser struct {
 
 var userSeq int64
 
-func newHealthUser() fused {
+func newHealthUser(slash bool) fused {
 	n := atomic.AddInt64(&userSeq, 1)
 	cb := health.NewCircuitBreaker()
 	d := &scriptedDoer{}
 	u, _ := url.Parse(fmt.Sprintf("http://hu%d.invalid:80", n))
 	hu, _ := url.Parse(u.String() + "/health")
+	if slash {
+		hu, _ = url.Parse(u.String() + "/")
+	}
 	ep := &domain.Endpoint{Name: fmt.Sprintf("hu%d", n), URL: u, URLString: u.String(), HealthCheckURL: hu, HealthCheckURLString: hu.String(),
 		CheckTimeout: 2 * time.Second, CheckInterval: 5 * time.Second, Status: domain.StatusHealthy}
 	return &healthUser{cb: cb, hc: health.NewHealthClient(d, cb), doer: d, ep: ep}
@@ -160,6 +170,71 @@ func (e *engineUser) Check(fail, _ bool) bool {
 func (e *engineUser) Advance(d time.Duration) { engineSvc.GetCircuitBreaker(e.name).VerifShift(d) }
 func (e *engineUser) Close()                  {}
 
+// ---- unifier: forced endpoint checks through the lifecycle unifier
+
+type scriptedDiscovery struct {
+	mu    sync.Mutex
+	calls int
+	fail  bool
+}
+
+func (d *scriptedDiscovery) DiscoverModels(ctx context.Context, ep *domain.Endpoint) ([]*domain.ModelInfo, error) {
+	d.mu.Lock()
+	defer d.mu.Unlock()
+	d.calls++
+	if d.fail {
+		return nil, fmt.Errorf("scripted discovery failure")
+	}
+	return []*domain.ModelInfo{{Name: "c08-model:7b", LastSeen: time.Now()}}, nil
+}
+
+type unifierUser struct {
+	lu   *unifier.LifecycleUnifier
+	disc *scriptedDiscovery
+	ep   *domain.Endpoint
+}
+
+func newUnifierUser(p params) (fused, error) {
+	cfg := unifier.DefaultConfig()
+	cfg.CircuitBreaker = unifier.CircuitBreakerConfig{Enabled: true, FailureThreshold: p.Threshold,
+		SuccessThreshold: p.SuccessTh, OpenDuration: p.Timeout, HalfOpenRequests: p.HalfOpen}
+	d := &scriptedDiscovery{}
+	mu, err := unifier.NewFactory(hx.QuietLogger()).CreateLifecycleUnifierWithDiscovery(cfg, d)
+	if err != nil {
+		return nil, err
+	}
+	lu, ok := mu.(*unifier.LifecycleUnifier)
+	if !ok {
+		return nil, fmt.Errorf("factory returned %T", mu)
+	}
+	n := atomic.AddInt64(&userSeq, 1)
+	u, _ := url.Parse(fmt.Sprintf("http://uu%d.invalid:11434", n))
+	ep := &domain.Endpoint{Name: fmt.Sprintf("uu%d", n), URL: u, URLString: u.String(), Type: "ollama", Status: domain.StatusHealthy}
+	// the endpoint is known to the unifier: one ordinary unification while everything is fine
+	if _, err := lu.UnifyModels(context.Background(), []*domain.ModelInfo{{Name: "c08-model:7b", LastSeen: time.Now()}}, ep); err != nil {
+		return nil, err
+	}
+	return &unifierUser{lu: lu, disc: d, ep: ep}, nil
+}
+
+// Check: a failing check reports whether discovery was attempted; a working one whether the
+// unification behind the breaker went through.
+func (x *unifierUser) Check(fail, _ bool) bool {
+	x.disc.mu.Lock()
+	x.disc.fail = fail
+	before := x.disc.calls
+	x.disc.mu.Unlock()
+	err := x.lu.ForceEndpointCheck(context.Background(), x.ep.URLString)
+	if fail {
+		x.disc.mu.Lock()
+		defer x.disc.mu.Unlock()
+		return x.disc.calls > before
+	}
+	return err == nil
+}
+func (x *unifierUser) Advance(d time.Duration) { x.lu.VerifBreaker(x.ep.URLString).VerifShift(d) }
+func (x *unifierUser) Close()                  {}
+
 // ---- runner
 
 func runUser(c UserCase) []ev.Violation {
@@ -167,7 +242,15 @@ func runUser(c UserCase) []ev.Violation {
 	var p params
 	switch c.Kind {
 	case "health":
-		b, p = newHealthUser(), healthParams()
+		b, p = newHealthUser(c.Slash), healthParams()
+	case "unifier":
+		p = params{Kind: "unifier", Threshold: c.Th, Timeout: 60 * time.Second, HalfOpen: c.Half, SuccessTh: c.Succ}
+		ub, err := newUnifierUser(p)
+		if err != nil {
+			rec.Inconclusive("unifier: " + err.Error())
+			return nil
+		}
+		b = ub
 	default:
 		eb, err := newEngineUser()
 		if err != nil {
@@ -192,6 +275,16 @@ func runUser(c UserCase) []ev.Violation {
 		case 'f', 'R', 's':
 			before := m.describe()
 			got := b.Check(op != 's', op == 'R')
+			if c.Kind == "unifier" && op != 's' && got {
+				// a forced check discovers before the breaker is consulted: the failed discovery is a
+				// failure report without a preceding ask
+				m.failure()
+				trace = append(trace, string(op)+"=discovery failed")
+				if m.tripped() {
+					tripped = true
+				}
+				continue
+			}
 			ok, _ := m.ask(got)
 			ans := "not contacted"
 			if got {
@@ -252,18 +345,30 @@ func runUser(c UserCase) []ev.Violation {
 }
 
 func genUser(t *rapid.T) UserCase {
-	c := UserCase{Kind: rapid.SampledFrom([]string{"health", "engine", "engine"}).Draw(t, "kind")}
+	c := UserCase{Kind: rapid.SampledFrom([]string{"health", "engine", "engine", "unifier"}).Draw(t, "kind")}
+	switch c.Kind {
+	case "health":
+		c.Slash = rapid.Bool().Draw(t, "slash")
+	case "unifier":
+		c.Th = rapid.IntRange(1, 5).Draw(t, "th")
+		c.Half = rapid.IntRange(1, 4).Draw(t, "half")
+		c.Succ = rapid.IntRange(1, c.Half).Draw(t, "succ")
+	}
 	if rapid.IntRange(0, 2).Draw(t, "steady") == 0 {
 		// trip the breaker, then steady traffic at intervals below the timeout for longer than it
 		th := 5
 		if c.Kind == "health" {
 			th = 3
 		}
+		if c.Kind == "unifier" {
+			th = c.Th
+		}
 		ops := strings.Repeat("f", th)
 		for i, k := 0, rapid.IntRange(3, 7).Draw(t, "k"); i < k; i++ {
 			ops += "t" + rapid.SampledFrom([]string{"f", "f", "s"}).Draw(t, "what")
 		}
-		return UserCase{Kind: c.Kind, Ops: ops}
+		c.Ops = ops
+		return c
 	}
 	n := rapid.IntRange(3, 14).Draw(t, "len")
 	w := "fffffsstTTw"
@@ -274,5 +379,6 @@ func genUser(t *rapid.T) UserCase {
 	for i := range ops {
 		ops[i] = w[rapid.IntRange(0, len(w)-1).Draw(t, "op")]
 	}
-	return UserCase{Kind: c.Kind, Ops: string(ops)}
+	c.Ops = string(ops)
+	return c
 }
